@@ -24,6 +24,46 @@ Proof.
   destruct (IH _ _ H) as [a Ha]. exact (Hf _ _ _ Ha).
 Qed.
 
+(* ---------- SkipSchemas: the schema walk leaves the state as it was ---------- *)
+Section SkipState.
+Variable E : env.
+Variable docs : list (string * json).
+Variable cwd : string.
+Variable OP : opts.
+Variable ctx_base : string.
+Variable live : option (string * json).
+Hypothesis Hskip : o_skip OP = true.
+Variable G : string -> json -> Prop.
+Hypothesis G_child : forall b m k v x, G b (JObj m) -> has_ref m = false -> In (k, v) m -> child_of x v -> G b x.
+Hypothesis G_plain : forall b m, G b (JObj m) -> get_str "id" m = "" /\ assoc "$ref" m <> Some (JStr "").
+Variable follow : st -> list string -> option string -> string -> json -> eres (st * json).
+
+Theorem walk_skip_state : forall j s parents rroot base s' j',
+  G base j -> walk E docs cwd OP ctx_base live follow j s parents rroot base = Done (s', j') -> s' = s.
+Proof.
+  intros j. remember (jsize j) as n eqn:En. revert j En.
+  induction n as [n IH] using lt_wf_ind. intros j En s parents rroot base s' j' Hg. subst n.
+  destruct j as [| | | |l|m]; try (intros H; inversion H; reflexivity).
+  cbn [walk]. destruct (G_plain _ _ Hg) as [Hid Hne].
+  destruct (match assoc "$ref" m with Some (JStr r) => String.eqb r "" | _ => false end) eqn:Eemp.
+  { intros H. inversion H. reflexivity. }
+  unfold apply_id. rewrite Hid. cbn [String.eqb].
+  destruct (has_ref m) eqn:Hr.
+  - rewrite Hskip. cbn [negb].
+    destruct (nuri (get_str "$ref" m) base) as [nref| |]; cbn [pbind]; try discriminate.
+    destruct (render_rebased ctx_base s nref) as [txt| |]; cbn [pbind]; try discriminate.
+    intros H. inversion H. reflexivity.
+  - intros H. apply ebind_done in H. destruct H as [[s1 m1] [Hf H]]. cbn [fst snd] in H. inversion H; subst.
+    destruct (fold_members_rel (fun x s0 => walk E docs cwd OP ctx_base live follow x s0 parents rroot base) (fun s0 => s0 = s) (fun _ _ => True)
+                (fun x => jsize x < jsize (JObj m) /\ G base x)
+                (fun x s0 s0' x' Hd Hs0 Hw => conj (eq_trans (IH (jsize x) (proj1 Hd) x eq_refl s0 parents rroot base s0' x' (proj2 Hd) Hw) Hs0) I)
+                m s [] s' m1) as [Hs' _]; [| reflexivity | exact Hf | exact Hs'].
+    intros k v x Hin Hc. split.
+    + eapply Nat.le_lt_trans; [apply child_of_size; exact Hc|eapply jsize_value; exact Hin].
+    + eapply G_child; eassumption.
+Qed.
+End SkipState.
+
 Section SpecSim.
 Variable E : env.
 Variable docs : list (string * json).
@@ -409,6 +449,51 @@ Proof.
   destruct (section_sim fpath (fun k v v' => if has_x_prefix_ci k then v' = v else pi_rel ctx_base v v')
               (fun k v => has_x_prefix_ci k = false -> PorIn "PathItem" ctx_base v) Hfp "paths" _ _ _ _ Hin4 Hs3 H4) as [Hs4 Hr4].
   split; [exact Hs4|]. exists m1, m2, m3. eexists. repeat split; eassumption || reflexivity.
+Qed.
+
+(* ---------- SkipSchemas mode: the definitions are left alone, the three other sections as before ---------- *)
+Definition spec_rel_skip (m : list (string * json)) (out : json) : Prop :=
+  exists m2 m3 m4,
+    sec_rel "parameters" (fun _ => por_rel "Parameter" ctx_base) m m2 /\
+    sec_rel "responses" (fun _ => por_rel "Response" ctx_base) m2 m3 /\
+    sec_rel "paths" (fun k v v' => if has_x_prefix_ci k then v' = v else pi_rel ctx_base v v') m3 m4 /\
+    out = JObj m4.
+
+Theorem expand_spec_sim_skip root_url m s s' out :
+  o_skip OP = true -> RootIn m -> St s -> Coh cwd (Some root_url) ctx_base ->
+  expand_spec_with E docs cwd OP ctx_base live follow fuel root_url (JObj m) s = Done (s', out) ->
+  St s' /\ spec_rel_skip m out.
+Proof.
+  intros Hskip [_ [Hpars [Hresps Hpaths]]] Hs Hcoh H. unfold expand_spec_with in H. rewrite Hskip in H.
+  apply ebind_done in H. destruct H as [[s4 m4] [H4 H]]. cbn [fst snd] in H. inversion H; subst.
+  set (fpar := fun (s : st) (_ : string) (v : json) => expand_por E docs cwd OP live follow fuel s (Some root_url) ctx_base "Parameter" v) in H4.
+  set (fres := fun (s : st) (_ : string) (v : json) => expand_por E docs cwd OP live follow fuel s (Some root_url) ctx_base "Response" v) in H4.
+  match type of H4 with section_step "paths" ?fp ?r3 = _ => set (fpath := fp) in H4; set (R3 := r3) in H4 end.
+  assert (Hsec : forall k f acc b, section_step k f acc = Done b -> exists a, acc = Done a).
+  { intros k f acc b Hb. unfold section_step in Hb. apply ebind_done in Hb. destruct Hb as [a [Ha _]]. exists a. exact Ha. }
+  destruct (Hsec _ _ _ _ H4) as [[s3 m3] H3]. rewrite H3 in H4. subst R3.
+  match type of H3 with section_step "responses" _ ?r2 = _ => set (R2 := r2) in H3 end.
+  destruct (Hsec _ _ _ _ H3) as [[s2 m2] H2]. rewrite H2 in H3. subst R2.
+  destruct (section_sim fpar (fun _ => por_rel "Parameter" ctx_base) (fun _ v => PorIn "Parameter" ctx_base v)
+              (fun s0 key v s0' v' Hp Hs0 Hw => por_step "Parameter" s0 (Some root_url) ctx_base v s0' v' Hp Hs0 Hcoh Hw)
+              "parameters" s m s2 m2 Hpars Hs H2) as [Hs2 Hr2].
+  assert (Ha2 : forall k', "parameters" <> k' -> assoc k' m2 = assoc k' m) by (intros k' Hne; exact (sec_rel_other _ _ _ _ _ Hr2 Hne)).
+  destruct (section_sim fres (fun _ => por_rel "Response" ctx_base) (fun _ v => PorIn "Response" ctx_base v)
+              (fun s0 key v s0' v' Hp Hs0 Hw => por_step "Response" s0 (Some root_url) ctx_base v s0' v' Hp Hs0 Hcoh Hw)
+              "responses" s2 m2 s3 m3) as [Hs3 Hr3]; [|exact Hs2|exact H3|].
+  { intros vm Hvm. rewrite Ha2 in Hvm by discriminate. exact (Hresps vm Hvm). }
+  assert (Ha3 : forall k', "responses" <> k' -> assoc k' m3 = assoc k' m2) by (intros k' Hne; exact (sec_rel_other _ _ _ _ _ Hr3 Hne)).
+  assert (Hfp : forall s0 key v s0' v', (has_x_prefix_ci key = false -> PorIn "PathItem" ctx_base v) -> St s0 -> fpath s0 key v = Done (s0', v') ->
+                St s0' /\ (if has_x_prefix_ci key then v' = v else pi_rel ctx_base v v')).
+  { intros s0 key v s0' v' Hp Hs0 Hw. unfold fpath in Hw. destruct (has_x_prefix_ci key) eqn:Ex.
+    - inversion Hw; subst. split; [exact Hs0|reflexivity].
+    - destruct v as [| | | | |pm]; try (inversion Hw; subst; split; [exact Hs0|reflexivity]).
+      exact (pi_step s0 (Some root_url) ctx_base (JObj pm) s0' v' (Hp eq_refl) Hs0 Hcoh Hw). }
+  assert (Hin4 : forall vm, assoc "paths" m3 = Some (JObj vm) -> Forall (fun kv => has_x_prefix_ci (fst kv) = false -> PorIn "PathItem" ctx_base (snd kv)) vm).
+  { intros vm Hvm. rewrite Ha3, Ha2 in Hvm by discriminate. exact (Hpaths vm Hvm). }
+  destruct (section_sim fpath (fun k v v' => if has_x_prefix_ci k then v' = v else pi_rel ctx_base v v')
+              (fun k v => has_x_prefix_ci k = false -> PorIn "PathItem" ctx_base v) Hfp "paths" _ _ _ _ Hin4 Hs3 H4) as [Hs4 Hr4].
+  split; [exact Hs4|]. exists m2, m3. eexists. repeat split; eassumption || reflexivity.
 Qed.
 
 (* ---------- ... and ExpandSpec RETURNS when every reference is resolvable (C04, C08) ---------- *)
@@ -919,6 +1004,37 @@ Proof.
            (fun s0 k v rr Hk Hg Hs0 Hc => Htotal (S d) s0 ["#/definitions/" ++ k] rr ctx_base v (Nat.lt_lt_succ_r _ _ Hlen)
                                             (NoDup_cons _ (@in_nil string _) (NoDup_nil _)) Hg Hs0 Hc)
            root_url m s (chk_root m Hroot) Hs Hcoh).
+Qed.
+
+(* ---------- SkipSchemas mode ---------- *)
+Lemma exp_skip_state : o_skip OP = true -> forall d s ps rr b t s' t',
+  G b t -> exp E docs cwd OP ctx_base live d s ps rr b t = Done (s', t') -> s' = s.
+Proof.
+  intros Hskip d s ps rr b t s' t' Hg H. destruct d as [|d]; [discriminate|]. cbn [exp] in H.
+  exact (walk_skip_state E docs cwd OP ctx_base live Hskip G (GN_child E docs cwd OP ctx_base rid nodes Hck) (GN_plain E docs cwd OP ctx_base rid nodes Hck)
+           (exp E docs cwd OP ctx_base live d) t s ps rr b s' t' Hg H).
+Qed.
+
+(* ExpandSpec with SkipSchemas on a checked graph: the definitions are left alone; every shared parameter, shared response
+   and path item is replaced by the end of its chain, the schemas below them by schemas whose `$ref`s are rebased and which,
+   read at the root location, are bisimilar to the input's *)
+Theorem checked_spec_sim_skip d fuel root_url m s s' out :
+  o_skip OP = true -> check_root m = true -> St s -> Coh cwd (Some root_url) ctx_base ->
+  expand_spec_with E docs cwd OP ctx_base live (exp E docs cwd OP ctx_base live d) fuel root_url (JObj m) s = Done (s', out) ->
+  St s' /\ spec_rel_skip E docs cwd ctx_base (fun b t t' => bisimilar E docs cwd b t ctx_base t') m out.
+Proof.
+  intros Hskip Hroot Hs Hcoh H.
+  apply (expand_spec_sim_skip E docs cwd OP ctx_base live rid live_served strict St (fun s0 Hs0 => proj1 Hs0) MD
+           (fun s0 x Hs0 Hx => proj2 Hs0 x Hx)
+           (fun s0 s0' Hs0 Hi Hm => conj Hi (fun x Hx => proj2 Hs0 x (eq_ind _ (fun l => In x l) Hx _ Hm)))
+           G (exp E docs cwd OP ctx_base live d) (fun b t t' => bisimilar E docs cwd b t ctx_base t')
+           (fun s0 rr b t s0' t' Hg Hs0 Hc He =>
+              conj (eq_ind_r St Hs0 (exp_skip_state Hskip d s0 [] rr b t s0' t' Hg He))
+                   (proj2 (checked_graph_sim E docs cwd OP ctx_base rid nodes live Hck live_served strict d s0 [] rr b t s0' t' Hg (proj1 Hs0) Hc He)))
+           GE (GEN_holder E docs cwd enodes nodes Hcke) (GEN_target E docs cwd enodes nodes Hcke) (GEN_same E docs cwd enodes nodes Hcke)
+           (GEN_schema E docs cwd enodes nodes Hcke) chk_fresh rank_of chk_rank fuel chk_pi
+           (fun k => In ("#/definitions/" ++ k) bad0)
+           root_url m s s' out Hskip (chk_root m Hroot) Hs Hcoh H).
 Qed.
 End SpecCheck.
 
